@@ -1614,7 +1614,7 @@ class StateEngine(object):
             state name either, but must not start the execution all over
             again: it fails the state lookup below instead.)
             """
-            current_state = ASL["StartAt"]
+            current_state = ASL.get("StartAt")  # (None fails the state lookup)
             self.start_execution(state_machine, current_state, event)
 
             with opentracing.tracer.start_active_span(
